@@ -11,6 +11,8 @@ mod fit;
 mod fault;
 mod stats;
 mod robust;
+mod conv;
+mod mc;
 
 use common::Out;
 use std::io::Write;
@@ -61,6 +63,8 @@ fn main() {
         "fault" => fault::stream(&mut out, seed, thorough),
         "stats" => stats::stream(&mut out, seed, thorough),
         "robust" => robust::stream(&mut out, seed, thorough),
+        "conv" => conv::stream(&mut out, seed, thorough),
+        "mc" => mc::stream(&mut out, seed, thorough),
         _ => {
             eprintln!("unknown stream {}", stream);
             std::process::exit(2);
